@@ -31,7 +31,7 @@ for pid in sorted(set(re.match(r"(C\d+)", os.path.basename(f)).group(1) for f in
                     j += 1
                     d += " " + lines[j]
                 doc = re.sub(r"\s+", " ", d.replace("-/", "")).strip()
-            m = re.match(r"^(?:private\s+|protected\s+)?theorem\s+(\S+)", ln)
+            m = re.match(r"^(?:protected\s+)?theorem\s+(\S+)", ln)
             if m:
                 name = ".".join(ns + [m.group(1)])
                 says = (doc or "").split(". ")[0][:240]
